@@ -105,7 +105,7 @@ GOOD_RESPONSE = (61, UInt32(1) + String(b'secret'))
 
 
 def run_server_case(phase=None, pkttype=None, body=b'', second=None,
-                    no_strict=False, cleartext=None):
+                    no_strict=False, cleartext=None, wrong_guess=False):
     """Standard dialogue (service request, none auth, session open, exec)
     with an optional injected packet (and optional second one) at `phase`.
     Returns dict(seen=[types], log=[...], closed=bool)."""
@@ -159,7 +159,7 @@ def run_server_case(phase=None, pkttype=None, body=b'', second=None,
             server_host_keys=[hostkey()], encoding=None)
         res['raw'] = await rawpeer.raw_connect(
             '127.0.0.1', 2222, hold_service=True, no_strict=no_strict,
-            cleartext_inject=cleartext)
+            cleartext_inject=cleartext, wrong_guess=wrong_guess)
 
     try:
         loop.run_until_complete(go())
